@@ -1,0 +1,64 @@
+// Unless explicitly stated otherwise all files in this repository are licensed
+// under the Apache License Version 2.0.
+// This product includes software developed at Datadog (https://www.datadoghq.com/).
+// Copyright 2025-present Datadog, Inc.
+
+//go:build verif
+
+package packets
+
+import (
+	"net/netip"
+	"sync/atomic"
+
+	"golang.org/x/net/bpf"
+)
+
+// VerifHooks lets a verification harness supply the lowest-level Sink/Source
+// constructors (a simulated wire). Only compiled with the "verif" build tag.
+type VerifHooks struct {
+	// NewSink, when non-nil, replaces the raw socket sink constructor
+	NewSink func(addr netip.Addr) (Sink, error)
+	// NewSource, when non-nil, replaces the AF_PACKET source constructor
+	NewSource func() (Source, error)
+}
+
+var verifHooks atomic.Pointer[VerifHooks]
+
+// SetVerifHooks registers (or with nil, removes) the harness constructors
+func SetVerifHooks(h *VerifHooks) {
+	verifHooks.Store(h)
+}
+
+func verifNewSink(addr netip.Addr) (Sink, error, bool) {
+	h := verifHooks.Load()
+	if h == nil || h.NewSink == nil {
+		return nil, nil, false
+	}
+	s, err := h.NewSink(addr)
+	return s, err, true
+}
+
+func verifNewSource() (Source, error, bool) {
+	h := verifHooks.Load()
+	if h == nil || h.NewSource == nil {
+		return nil, nil, false
+	}
+	s, err := h.NewSource()
+	return s, err, true
+}
+
+// VerifClassicBPF exposes the classic BPF program selected for a filter spec
+func VerifClassicBPF(spec PacketFilterSpec) ([]bpf.RawInstruction, error) {
+	return getClassicBPFFilter(spec)
+}
+
+// VerifDropAllFilter exposes the drop-all program used while draining
+func VerifDropAllFilter() []bpf.RawInstruction {
+	return dropAllFilter
+}
+
+// VerifSetPacketIDBase sets the packet ID allocator's current value
+func VerifSetPacketIDBase(v uint32) {
+	curPacketID.Store(v)
+}
